@@ -438,11 +438,35 @@ def search_eval(R, lib, inst, tag, inv):
                 return ('fault', 'does not terminate')
             raise
     dead = set()
+    ctor_f = [f for f in lib.fns(REG + '::ZoneRegistrar', inst) if len(f.params) == 2]
+    if not ctor_f:
+        raise AnalysisError('anchor vanished: %s(registrySize, zoneRegistry) [%s]' % (REG, tag))
+    from .cxx import int_type as _it
+    reg_ftypes = {n_: _it(t_) for n_, t_, _x in lib.fields(REG) if _it(t_)}
+
+    def make_registrar(reg, n, assume_sorted=False):
+        """a registrar as its own constructor leaves it (whatever members it keeps); for the large virtual registries the scan
+        of isSorted() over every entry is replaced by its answer"""
+        o = AObj({}, oid='registrar', cls=REG, ftypes=reg_ftypes)
+        f_ = ctor_f[0]
+        args = [n if _it(pt_) else reg for (_pn, pt_) in f_.params]
+        xi = dict(intr)
+        if assume_sorted:
+            xi[REG + '::isSorted'] = lambda ev, recv, a_: 1
+        try:
+            AEval(module=mod, intrinsics=xi, typed=True, max_steps=200000).call_function(f_.name, args, recv=o, chosen=CxxModule._Fn(f_))
+        except IndexError:
+            note('R2-cover', '%s:return-true' % srt.name, f_.loc, 'the constructor reads outside a registry of %d entries' % n)
+            return AObj({'mRegistrySize': n, 'mZoneRegistry': reg, 'mIsSorted': 0}, oid='registrar', cls=REG, ftypes=reg_ftypes)
+        return o
     lin, bsr, lid, srt = fn('linearSearchByName'), fn('binarySearchByName'), fn('linearSearchById'), fn('isSorted', 2)
     fin, fid = fn('findIndexForName'), fn('findIndexForId')
     thorough = R.cfg.tier == 'thorough'
     rng = random.Random(R.cfg.seed or 0)
     maxn = 11 if thorough else 9
+    thr = lib.global_value(REG + '::kBinarySearchThreshold')
+    if isinstance(thr, int) and thr + 1 > maxn:
+        maxn = min(thr + 2, 16)          # the registries must reach beyond the size at which the dispatcher starts to bisect
     counts = {'R2': 0, 'R2-dir': 0, 'R2-cover': 0, 'R2-sorted': 0}
     first = {}
 
@@ -468,8 +492,7 @@ def search_eval(R, lib, inst, tag, inv):
             if (got if isinstance(got, tuple) else bool(got)) != is_sorted:
                 note('R2-cover', '%s:return-true' % srt.name, srt.loc, 'isSorted() answers %s for a registry of %d entries whose names are in the order %s'
                      % (got[1] if isinstance(got, tuple) else bool(got), n, order))
-            registrar = AObj({'mRegistrySize': n, 'mZoneRegistry': reg, 'mIsSorted': 1 if is_sorted else 0}, oid='registrar', cls=REG,
-                             ftypes={'mRegistrySize': (16, False), 'mIsSorted': (8, False)})
+            registrar = make_registrar(reg, n)
             for q in [-1] + [r + d for r in ranks for d in (0, 1)]:
                 want = order.index(q) if q in order else inv
                 searches = [(lin, 'R2', '%s:found' % lin.name, [reg, n, q], None), (fin, 'R2', '%s:return' % fin.name, [q], registrar)]
@@ -522,8 +545,7 @@ def search_eval(R, lib, inst, tag, inv):
         if n <= maxn or n >= inv:
             continue
         reg = Virtual(n)
-        registrar = AObj({'mRegistrySize': n, 'mZoneRegistry': reg, 'mIsSorted': 1}, oid='registrar', cls=REG,
-                         ftypes={'mRegistrySize': (16, False), 'mIsSorted': (8, False)})
+        registrar = make_registrar(reg, n, assume_sorted=True)
         for i in sorted({0, 1, n // 2 - 1, n // 2, n // 2 + 1, n - 2, n - 1}):
             for q, want in ((2 * i, i), (2 * i + 1, inv), (2 * i - 1, inv)):
                 for f_, c, args, recv in ((bsr, '%s:direction' % bsr.name, [reg, n, q], None), (fin, '%s:return' % fin.name, [q], registrar)):
@@ -566,31 +588,11 @@ def returns_rule(R, lib, f, ai, size_var, inv):
 
 
 def delegate_rule(R, lib, f):
-    # that findIndexFor* answer like the searches over (mZoneRegistry, mRegistrySize, query) is decided by search_eval on
-    # every abstract registry; here only the gate in front of a directly called bisection
-    # the bisection presupposes the order isSorted() established: it may only be reached on paths where mIsSorted is true
-
-    class SortedGate(Rule):
-        def initial(self_):
-            return ['unknown']
-
-        def refine(self_, cond, st, truth):
-            c_ = cond
-            while c_.k == 'cast':
-                c_ = c_.a[2]
-            if path_of(c_) == 'this.mIsSorted':
-                return 'sorted' if truth else 'unsorted'
-            return st
-
-        def event(self_, e, st, tr):
-            if e.k == 'call' and e.a[0].endswith('::binarySearchByName'):
-                c = '%s:binary-search-gate' % f.name
-                R.instance('R2-sorted', c, e.loc)
-                if st != 'sorted':
-                    R.violation('R2-sorted', c, e.loc, 'binarySearchByName() is reached on a path where mIsSorted is %s: on an unsorted registry the bisection walks away '
-                                'from names that are present and reports them as not found' % ('false' if st == 'unsorted' else 'not tested'), detail=list(tr))
-            return st
-    Engine(SortedGate()).run(f.body)
+    """that findIndexFor* answer like the searches over (mZoneRegistry, mRegistrySize, query), and that an unsorted registry is
+    never bisected, is decided by search_eval on every abstract registry (the unsorted ones of 6..9 entries lie above the
+    threshold at which the dispatcher turns to the bisection); how the dispatcher spells its gate - a test of mIsSorted, of
+    isSorted(), of a flag computed once in the constructor - is its own business"""
+    return
 
 
 class FoundRule(Rule):
@@ -811,8 +813,13 @@ def manager_rules(R, lib):
         for n in (0, 1, 3, 7):
             order = [2 * i for i in range(n)]
             reg = [AObj({'name': r, 'zoneId': 1000 + r}, oid='z%d' % r) for r in order]
-            registrar = AObj({'mRegistrySize': n, 'mZoneRegistry': reg, 'mIsSorted': 1 if n >= 1 else 0}, oid='registrar', cls=REG,
-                             ftypes={'mRegistrySize': (16, False), 'mIsSorted': (8, False)})
+            rc = [f_ for f_ in lib.fns(REG + '::ZoneRegistrar') if len(f_.params) == 2 and f_.inst != 'primary' and (('asic' in f_.inst) == (tag == 'basic'))]
+            if not rc:
+                raise AnalysisError('anchor vanished: %s(registrySize, zoneRegistry) [%s]' % (REG, tag))
+            from .cxx import int_type as _it
+            registrar = AObj({}, oid='registrar', cls=REG, ftypes={n_: _it(t_) for n_, t_, _x in lib.fields(REG) if _it(t_)})
+            AEval(module=mod, intrinsics=intr, typed=True, max_steps=200000).call_function(
+                rc[0].name, [n if _it(pt_) else reg for (_pn, pt_) in rc[0].params], recv=registrar, chosen=CxxModule._Fn(rc[0]))
             cache = AObj({}, oid='cache', cls='ace_time::ZoneProcessorCache')
             mgr = AObj({reg_f[0]: registrar, cache_f[0]: cache}, oid='manager', cls=q)
 
